@@ -19,7 +19,7 @@ COMBS = ["fisher", "tippett", "liptak", "callable"]
 
 
 def gen_table(ctx):
-    reps = ctx.rng.choice([1, 2, 3, 5, 8, 10, 13, 20, 40]) if ctx.rng.random() < 0.7 else ctx.rng.randint(1, 40)
+    reps = ctx.rng.choice([1, 2, 3, 5, 8, 10, 13, 20, 40]) if ctx.rng.random() < 0.7 else (ctx.rng.randint(1, 40) if ctx.rng.random() < 0.85 else ctx.rng.choice([99, 150, 257]))
     n = ctx.rng.randint(2, 5)
     hi = ctx.rng.choice([2, 3, 6, 12])
     tv = [[ctx.rng.randint(0, hi) for _ in range(n)] for _ in range(reps)]
@@ -45,7 +45,9 @@ def run(ctx):
     for _ in range(ctx.n(500, 8000)):
         reps, n, tv, ts, mode = gen_table(ctx)
         comb = ctx.rng.choice(COMBS)
-        kinds = [ctx.rng.choice(["np", "float", "int"]) for _ in range(n)]
+        kinds = [ctx.rng.choice(["np", "float", "int", "f32", "i64"]) for _ in range(n)]
+        if ctx.rng.random() < 0.3:
+            kinds = [ctx.rng.choice(["f32", "int", "i64"])] * n      # a homogeneous non-float64 matrix
         e, tests, st = scripted_experiment(tv, ts, kinds)
         r = guarded(npc.sim_npc, e, tests, combine=(user if comb == "callable" else comb), reps=reps,
                     in_place=ctx.rng.random() < 0.3)
@@ -103,10 +105,11 @@ def run(ctx):
             pv = [Fr(ctx.rng.randint(1, B + c), B + c) for _ in range(n)]      # on the grid: ties with rows
         else:
             pv = [Fr(ctx.rng.randint(1, 64), 64) for _ in range(n)]            # dyadic
-        r = guarded(npc.npc, np.array([float(t) for t in pv]), np.array(D, dtype=float),
+        dt = ctx.rng.choice([float, float, np.float32, np.int64, int])
+        r = guarded(npc.npc, np.array([float(t) for t in pv]), np.array(D, dtype=dt),
                     combine=(user if comb == "callable" else comb), plus1=plus1)
-        ctx.case((tuple(map(tuple, D)), tuple(pv), comb, plus1), True); ctx.count("npc-" + comb + ("-plus1" if plus1 else ""))
-        det = {"call": "npc", "combine": comb, "plus1": plus1, "pvalues": [str(t) for t in pv], "distr": D}
+        ctx.case((tuple(map(tuple, D)), tuple(pv), comb, plus1), True); ctx.count("npc-" + comb + ("-plus1" if plus1 else "")); ctx.count("distr-dtype-" + np.dtype(dt).name)
+        det = {"call": "npc", "combine": comb, "plus1": plus1, "pvalues": [str(t) for t in pv], "distr": D, "distr_dtype": np.dtype(dt).name}
         if r[0] != "ok":
             det["error"] = r[1:]; ctx.violation("oracle", det, site="npc"); continue
         k = numerator_of(r[1], B + c)
